@@ -214,7 +214,7 @@ func (r *Run) Fail(clause, signature, format string, a ...interface{}) bool {
 
 	r.mu.Lock()
 
-	if r.ended { // a goroutine unwinding after the run: not part of its history
+	if r.ended && !r.inPost { // a goroutine unwinding after the run: not part of its history (post-bubble oracles are)
 		r.mu.Unlock()
 
 		return false
